@@ -180,7 +180,7 @@ package types
 //@   ensures[C16] forall k string :: k != key && old(has(l, k)) ==> result[k] == old(l[k])
 
 //@ func (Labels).AsList
-//@   except index#3 : undischarged on the reference tree (engine limit or missing callee contract), not claimed
+//@   except index@387de4#1 : undischarged on the reference tree (engine limit or missing callee contract), not claimed
 //@   nopanic[C16]
 
 //@ func (Labels).ToMappingWithEquals
@@ -379,7 +379,7 @@ package types
 
 // C03: ssh is decoded from its long (mapping) form only; the short forms are canonicalised before
 //@ func (*SSHConfig).DecodeMapstructure
-//@   except index#3 : undischarged on the reference tree (engine limit or missing callee contract), not claimed
+//@   except index@6c2783#1 : undischarged on the reference tree (engine limit or missing callee contract), not claimed
 //@   nopanic[C03]
 //@   ensures[C03] err == nil <==> isMap(value)
 
